@@ -326,4 +326,40 @@ ITEMS = location_types() + budget_types() + error_types() + [
                 r is Ok && rest0.len() > 0 && rest0[0] is Scalar && rest0[0]->Scalar_style is Plain && (rest0[0]->Scalar_tag is None || rest0[0]->Scalar_tag is Other) && !unit_scalar(rest0[0])
                     ==> r == sp_infer_plain(visitor, rest0[0]->Scalar_value@, rest0[0]->Scalar_tag, self.cfg) })''')],
         canaries=['C05:an_ignored_position_still_needs_a_node_a_dangling_container_end_is_an_error']),
+    dict(src=D, path=YD + 'fn deserialize_seq', id='YamlDeserializer::deserialize_seq',
+        impl_header="impl<'de, 'e> YamlDeserializer<'de, 'e>", props=['C05', 'C06', 'C01'], lift_nested_fns=True,
+        pre_rewrites=[(r"fn deserialize_seq<V: Visitor<'de>>\(mut self, visitor: V\) -> Result<V::Value, Self::Error>",
+                       'fn deserialize_seq_body(mut self, visitor: Vis) -> Result<VisVal, Error>', 1, 'R9')],
+        rewrites=[(r'tag == &SfTag::(\w+)', r'*tag == SfTag::\1', None, 'R15'),
+                  (r'scalar_is_nullish\(s, style\)', 'scalar_is_nullish(s.as_ref(), style)', None, 'R15'),
+                  (r'return visitor\.visit_seq\(EmptySeq\);', 'return visitor.visit_seq_empty();', 1, 'R8'),
+                  (r'decode_base64_yaml\(&scalar\)\.map_err\(\|err\| err\.with_location\(data_location\)\)\?',
+                   '(match decode_base64_yaml(scalar.as_ref()) { Ok(__v) => __v, Err(err) => { return Err(err.with_location(data_location)); } })', 1, 'R18'),
+                  (r'return visitor\.visit_seq\(ByteSeq \{ data, idx: 0 \}\);', 'return visitor.visit_seq_bytes(data);', 1, 'R8'),
+                  (r'let result = visitor\.visit_seq\(SA \{\s*ev: this\.ev,\s*cfg: this\.cfg,\s*\}\)\?;', 'let result = visitor.visit_seq_live(this.ev, this.cfg)?;', 1, 'R8')],
+        proofs=[dict(at='start', ghost=True, text='let ghost rest0 = self.ev.rest();'),
+                dict(before='let result = visitor.visit_seq_live(this.ev, this.cfg)?;', label='C05:a_sequence_target_requires_a_sequence_start_which_is_consumed_before_the_elements',
+                     text='assert(rest0.len() > 0 && rest0[0] is SeqStart && this.ev.rest() == rest0.skip(1));'),
+                dict(after='let result = visitor.visit_seq_live(this.ev, this.cfg)?;', ghost=True, text='let ghost rest_v = this.ev.rest();'),
+                dict(before='Ok(result)', label='C05:the_closing_sequence_end_is_consumed_here_and_nothing_else',
+                     text='assert(this.ev.rest() == (if rest_v.len() > 0 && rest_v[0] is SeqEnd { rest_v.skip(1) } else { rest_v }));')],
+        ensures=[('C05:a_null_like_scalar_is_an_empty_sequence_and_a_binary_scalar_is_its_bytes', '''({ let rest0 = old(self.ev).rest();
+                r is Ok && rest0.len() > 0 && rest0[0] is Scalar ==> ({
+                    let tag = rest0[0]->Scalar_tag; let value = rest0[0]->Scalar_value;
+                    if tag is Null || unit_scalar(rest0[0]) { r == vis_seq_empty(visitor) }
+                    else { tag is Binary && match b64_decode(b64_strip_ws(encode_utf8(value@))) { Some(bytes) => r == vis_seq_bytes(visitor, bytes), None => false } } }) })'''),
+                 ('C05:any_other_node_must_be_a_sequence', '''({ let rest0 = old(self.ev).rest();
+                r is Ok && !(rest0.len() > 0 && rest0[0] is Scalar) ==> rest0.len() > 0 && rest0[0] is SeqStart && r == vis_seq_live(visitor, rest0.skip(1), self.cfg) })''')],
+        canaries=['C05:a_null_like_scalar_is_an_empty_sequence_and_a_binary_scalar_is_its_bytes', 'C05:any_other_node_must_be_a_sequence']),
+    dict(src=D, path=YD + 'fn deserialize_unit_struct', id='YamlDeserializer::deserialize_unit_struct',
+        impl_header="impl<'de, 'e> YamlDeserializer<'de, 'e>", props=['C05', 'C01'],
+        pre_rewrites=[(r"fn deserialize_unit_struct<V: Visitor<'de>>\(\s*self,\s*_name: &'static str,\s*visitor: V,\s*\) -> Result<V::Value, Self::Error>",
+                       "fn deserialize_unit_struct(mut self, _name: &'static str, visitor: Vis) -> Result<VisVal, Error>", 1, 'R9')],
+        proofs=[dict(at='start', ghost=True, text='let ghost rest0 = self.ev.rest();'),
+                dict(before_re=r'visitor\.visit_unit\(\)\s*\}\s*Some\(other\)', label='C05:an_empty_mapping_is_consumed_whole', text='assert(this.ev.rest() == rest0.skip(2));')],
+        ensures=[('C05:a_unit_struct_is_an_empty_mapping_or_a_unit', '''({ let rest0 = old(self.ev).rest();
+                r is Ok ==> r == vis_unit(visitor) && (
+                    if rest0.len() > 0 && rest0[0] is MapStart { rest0.len() > 1 && rest0[1] is MapEnd }
+                    else { rest0.len() == 0 || rest0[0] is MapEnd || rest0[0] is SeqEnd || unit_scalar(rest0[0]) }) })''')],
+        canaries=['C05:a_unit_struct_is_an_empty_mapping_or_a_unit']),
 ]
